@@ -74,6 +74,18 @@ pub fn observe(case: &Json) -> Observation {
     let mut cycles = vec![];
     if let Ok(mut rt) = world::compile(&src) {
         rt.io_mut().resize(proggen::INPUT_LEN, 8, 0);
+        // several drivers that do not commute: each delivers other bytes for the whole image (the one
+        // registered last delivers the case's bytes), and all of them log their calls
+        let n_drv = case["drivers"].as_u64().unwrap_or(0) as usize;
+        let drivers = (n_drv > 0).then(|| {
+            let mut names: Vec<String> = ["zeta", "alpha", "mid", "beta9", "omega"].iter().take(n_drv).map(|s| (*s).to_string()).collect();
+            names.truncate(n_drv);
+            let shared = world::DriverShared::new(names.len());
+            for (i, n) in names.iter().enumerate() {
+                rt.add_io_driver(n.clone(), Box::new(world::SimDriver { index: i, shared: shared.clone() }));
+            }
+            shared
+        });
         let debug = rt.enable_debug();
         let mut now = 0i64;
         for op in case["ops"].as_array().cloned().unwrap_or_default() {
@@ -91,6 +103,19 @@ pub fn observe(case: &Json) -> Observation {
                         if bytes.len() == proggen::INPUT_LEN {
                             let b: Vec<u8> = bytes.iter().map(|x| x.as_u64().unwrap_or(0) as u8).collect();
                             rt.io_mut().inputs_mut().copy_from_slice(&b);
+                            if let Some(d) = &drivers {
+                                let mut d = d.lock().unwrap();
+                                let n = d.next_input.len();
+                                for i in 0..n {
+                                    let skew = ((n - 1 - i) * 37) as u8;
+                                    d.next_input[i] = Some((0, b.iter().map(|x| x.wrapping_add(skew)).collect()));
+                                }
+                                // two drivers failing in one cycle: which failure is reported must not depend on the process
+                                if op["fail_two"].as_bool().unwrap_or(false) && n >= 2 {
+                                    d.fail_read[0] = true;
+                                    d.fail_read[n - 1] = true;
+                                }
+                            }
                         }
                     }
                     rt.set_current_time(Duration::from_nanos(now));
@@ -105,6 +130,17 @@ pub fn observe(case: &Json) -> Observation {
                         h.str(&k).str(t);
                     }
                     h.bytes(rt.io().outputs());
+                    h.bytes(rt.io().inputs());
+                    if let Some(d) = &drivers {
+                        let mut d = d.lock().unwrap();
+                        for ev in d.log.drain(..) {
+                            h.str(&format!("{ev:?}"));
+                        }
+                        let n = d.next_input.len();
+                        for i in 0..n {
+                            d.fail_read[i] = false;
+                        }
+                    }
                     for ev in debug.drain_runtime_events() {
                         h.str(&world::render_event(&ev));
                     }
@@ -190,7 +226,16 @@ impl Check for C05Check {
                 _ => ops.push(json!({"k": "cycle", "dt": *or.pick(&[0i64, 10_000_000, 20_000_000]), "in": crate::checks::c01::gen_inputs(&mut or)})),
             }
         }
-        json!({"project": project, "children": if tier == Tier::Quick { 5 } else { 11 }, "ops": ops})
+        let mut dr = rng.fork("drivers");
+        let n_drivers = if dr.bool() { dr.usize(2, 5) } else { 0 };
+        if n_drivers > 0 {
+            for op in ops.iter_mut().filter(|op| op["k"] == "cycle") {
+                if dr.chance(1, 6) {
+                    op["fail_two"] = Json::from(true);
+                }
+            }
+        }
+        json!({"project": project, "children": if tier == Tier::Quick { 5 } else { 11 }, "drivers": n_drivers, "ops": ops})
     }
 
     fn shrink(&self, case: &Json) -> Vec<Json> {
